@@ -334,7 +334,12 @@ where
                     Ok(message) => message,
                     Err(err) => {
                         *this.close = true;
-                        return Poll::Ready(Some(WsMessage::Close(1002, err.to_string())));
+                        // graphql-transport-ws: 4400 for a message that cannot be understood
+                        let code = match this.protocol {
+                            Protocols::GraphQLWS => 4400,
+                            Protocols::SubscriptionsTransportWS => 1002,
+                        };
+                        return Poll::Ready(Some(WsMessage::Close(code, err.to_string())));
                     }
                 };
 
@@ -377,6 +382,16 @@ where
                         payload: request,
                     } => {
                         if let Some(data) = this.data.clone() {
+                            // graphql-transport-ws: an id that is still in use closes the socket
+                            if *this.protocol == Protocols::GraphQLWS
+                                && this.streams.contains_key(&id)
+                            {
+                                *this.close = true;
+                                return Poll::Ready(Some(WsMessage::Close(
+                                    4409,
+                                    format!("Subscriber for {} already exists", id),
+                                )));
+                            }
                             this.streams.insert(
                                 id,
                                 Box::pin(this.executor.execute_stream(request, Some(data))),
